@@ -12,6 +12,16 @@ CHECKS = {
          "Every ordered pair of a boundary grid (quick 75 values, thorough 609: all +-2^k, +-2^k+-1, uint edges, 26 doubles incl. NaN/inf/-0/subnormals, one value per other type) under + - * / % and unary minus, in all four literal/bound forms and in two build profiles, is executed on the real compiler+VM and compared with exact arithmetic. Complete for the grid; says nothing about operands outside it.",
          "Trusted: hardware IEEE-754 doubles, Rust i128 arithmetic, the harness reference model (refmodel.rs). double%double and time arithmetic are left unspecified.",
          "DESIGN.md section 3, C03"),
+ "C04": ("exploration",
+         "bounded exhaustive enumeration of value pairs (laws + reference order), all triples of the observed < matrix, all short lists and argument tuples with duplicates",
+         "Every ordered pair of a 109/209-value grid (all numeric cross-type pairs at the int/uint/2^53 boundaries, NaN, -0.0, strings, bytes, bools, null, types, timestamps, durations, nested lists/maps) is executed under == != < <= > >= in bound and literal form and judged against the algebraic laws and one reference order; transitivity is scanned over all n^3 triples of the observed matrix; sort is run on all lists of length <=4/<=6 with duplicates over 8 alphabets, min/max on all tuples of 1..4/5 arguments. Complete for these bounds only.",
+         "Trusted: the reference order (i128 for int/uint, nearest double for int-vs-double, bytewise for strings). == between unrelated types only has to be symmetric/complementary; bool-vs-number ordering unspecified.",
+         "DESIGN.md section 3, C04"),
+ "C13": ("exploration",
+         "bounded exhaustive enumeration of literal spellings whose denoted value the generator knows by construction",
+         "All boundary ints/uints (every +-2^k, +-2^k+-1) in decimal and 4 hex spellings with u/U, the first out-of-range magnitudes, doubles over all finite exponents x 10 mantissa patterns x up to 7 spellings (thorough: 245k), all strings of length <=2/<=3 over 11 hostile characters x 7 escape forms x quotes x prefixes (thorough: 971k), all 256 bytes in every spelling, and a rejection set (all proper prefixes of every escape form, surrogates, >10FFFF). Each literal is compiled and evaluated; the result must equal the spelled value bit for bit or be a syntax error.",
+         "Trusted: std float formatting round-trips; unknown escapes / leading zeros / exponent overflow are not generated (unspecified).",
+         "DESIGN.md section 3, C13"),
 }
 
 NOT_YET = "check not built yet in this revision of /verif (work in progress; see DESIGN.md section 3 for the planned bounded-exhaustive check)"
